@@ -148,10 +148,18 @@ func (fr *Frame) callWithArgs(s *State, g *Term, call *ssa.CallCommon, ins ssa.I
 			if callee.Blocks == nil {
 				names = nil
 				if r := sig.Recv(); r != nil {
-					names = append(names, r.Name())
+					n := r.Name()
+					if n == "" || n == "_" {
+						n = "recv"
+					}
+					names = append(names, n)
 				}
 				for i := 0; i < sig.Params().Len(); i++ {
-					names = append(names, sig.Params().At(i).Name())
+					n := sig.Params().At(i).Name()
+					if n == "" || n == "_" {
+						n = fmt.Sprintf("arg%d", i)
+					}
+					names = append(names, n)
 				}
 			}
 			return fr.applyContract(s, g, fc, callee, sig, names, args, pos)
@@ -242,7 +250,11 @@ func (fr *Frame) evalOlds(s *State) {
 		return
 	}
 	for _, o := range fr.contract.Olds {
-		fr.olds[o.Ghost] = fr.evalClauseAt(o, s, nil, nil)
+		v := fr.evalClauseAt(o, s, nil, nil)
+		fr.olds[o.Ghost] = v
+		if !v.open {
+			fr.x.assumeWF(fr.x.c.True(), v, fr.oldTypes[o.Ghost], s)
+		}
 	}
 }
 
@@ -455,6 +467,7 @@ func (fr *Frame) builtin(s *State, g *Term, b *ssa.Builtin, call *ssa.CallCommon
 			fr.fillSlice(s, g, args[0], u.Elem(), nil)
 		case *types.Map:
 			ks, _ := mapKeys(x, u)
+			x.mapTag(args[0], u)
 			P := x.mapPresent(s, ks)
 			s.mem["mapP|"+ks] = c.Store(P, args[0], c.ConstArr(SArr(ks, SBool), c.False()))
 		}
@@ -462,6 +475,7 @@ func (fr *Frame) builtin(s *State, g *Term, b *ssa.Builtin, call *ssa.CallCommon
 	case "delete":
 		mt := call.Args[0].Type().Underlying().(*types.Map)
 		ks, _ := mapKeys(x, mt)
+		x.mapTag(args[0], mt)
 		P := x.mapPresent(s, ks)
 		s.mem["mapP|"+ks] = c.Store(P, args[0], c.Store(c.Select(P, args[0]), args[1], c.False()))
 		return nil
